@@ -69,6 +69,7 @@ Step(ln) ==
          [] o.name = "get"       -> Has(h, S)
          [] o.name = "meta"      -> Has(h, S)
          [] o.name = "list"      -> List(h)
+         [] o.name = "listpart"  -> ListPart(h)
          [] OTHER                -> FALSE
 
 CInit == /\ tid \in 1..NTraces
